@@ -182,6 +182,31 @@ Theorem C15_leader_metadata_reads : forall nt first per ld n, leader_assign nt f
 Proof. exact leader_assign_spec. Qed.
 Print Assumptions C15_leader_metadata_reads.
 
+(* ---- the coordinator connection layer under the [coordinator] interface (makeConnect /
+   timeoutCoordinator over a real Conn; tied to the code by the wire-level family `conn`).
+   The deadline armed before a call is Timeout, except Timeout+RebalanceTimeout for JoinGroup and
+   Timeout+SessionTimeout for SyncGroup: in particular an unanswered Heartbeat or LeaveGroup fails
+   after Timeout whatever the session timeout is, so "the generation ends when a heartbeat fails"
+   takes effect within HeartbeatInterval + Timeout.  (Measured times are clock observations: the
+   harness compares the class of the failure time, with margins, not the theorem.) ---- *)
+Theorem C15_deadline_of_call : forall t r s c,
+  t <= deadline_ms t r s c /\
+  (c <> CJoinGroup -> c <> CSyncGroup -> deadline_ms t r s c = t) /\
+  deadline_ms t r s CHeartbeat = t /\ deadline_ms t r s CLeaveGroup = t /\
+  deadline_ms t r s CJoinGroup = t + r /\ deadline_ms t r s CSyncGroup = t + s.
+Proof. exact deadline_ms_spec. Qed.
+Print Assumptions C15_deadline_of_call.
+
+(* connecting tries every bootstrap broker in order: it fails iff all are down, and otherwise uses
+   the first reachable one — so a generation is reached, and LeaveGroup can be sent at Close,
+   whenever some broker is up *)
+Theorem C15_connect_tries_all : forall up,
+  (connect up = None <-> forall b, In b up -> b = false) /\
+  (forall i, connect up = Some i ->
+     nth_error up i = Some true /\ forall j, j < i -> nth_error up j = Some false).
+Proof. exact connect_tries_all. Qed.
+Print Assumptions C15_connect_tries_all.
+
 (* ---- the boolean monitors run on the implementation's recorded timelines are the ones the
    theorems above are read from ---- *)
 Theorem C15_monitors_hold : forall w ls s, run (init w) ls = Some s ->
